@@ -162,10 +162,20 @@ def _mk_create(name, P):
         tr = c.choose(TRANSPORTS, 'transport')
         if tr is not None and tr[0] is not None and tr[0].startswith('multipart'):
             chunks = [MULTIPART] if chunks else []
+        # "built in this call": another protocol object of the same class, configured the opposite way, has parsed a request
+        # in this process before (each path runs in a fresh process, so the history is part of the path)
+        earlier = c.choose([False, True], 'another_instance_parsed_before')
+        if earlier:
+            other = P()
+            for k in FLAGS:
+                other.parser_kwargs[k] = not flags[k] if c.concrete else (flags[k] == False)     # noqa: E712
+            c.run(other.create_in_document, _Ctx([b'<a/>'], None if tr is None else _HttpT(*tr)), charset)
+        n_parsers, n_calls = len(rec.parsers), len(rec.parse_calls)
         ctx = _Ctx(chunks, None if tr is None else _HttpT(*tr))
         out = c.run(prot.create_in_document, ctx, charset)
+        del rec.parse_calls[:n_calls]
         c.check('parse_reached_or_fault', bool(rec.parse_calls) or out.raised, detail=repr(out))
-        tokens = [t for t, a in rec.parsers]
+        tokens = [t for t, a in rec.parsers[n_parsers:]]
         for i, (fname, parser) in enumerate(rec.parse_calls):
             ok = any(parser is t for t in tokens)
             c.check('parse_call_uses_configured_parser', ok, detail=(fname, repr(parser)))
@@ -220,7 +230,7 @@ ATTACKS = ['external_general_entity_file', 'external_parameter_entity', 'externa
 
 
 def _attack_doc(kind, family, canary_path, slot):
-    body = '<tns:m xmlns:tns="%s"><tns:i>%s</tns:i><tns:u>%s</tns:u></tns:m>'
+    body = '<tns:m xmlns:tns="%s"><tns:i>%s</tns:i><tns:u>%s</tns:u>%s</tns:m>'
     if kind == 'external_general_entity_file':
         dtd = '<!DOCTYPE x [<!ENTITY e SYSTEM "file://%s">]>' % canary_path
         payload = '&e;'
@@ -232,7 +242,7 @@ def _attack_doc(kind, family, canary_path, slot):
         payload = '5'
     elif kind == 'internal_entity':
         dtd = '<!DOCTYPE x [<!ENTITY e "INTERNAL-ENTITY-TEXT-77">]>'
-        payload = 'a&e;b' if slot == 'u' else '&e;'
+        payload = 'a&e;b' if slot != 'i' else '&e;'
     elif kind == 'billion_laughs':
         ents = ['<!ENTITY a0 "lol">'] + ['<!ENTITY a%d "%s">' % (i, ('&a%d;' % (i - 1)) * 10) for i in range(1, 10)]
         dtd = '<!DOCTYPE x [%s]>' % ''.join(ents)
@@ -247,7 +257,9 @@ def _attack_doc(kind, family, canary_path, slot):
     else:
         dtd = ''
         payload = '<xi:include xmlns:xi="http://www.w3.org/2001/XInclude" href="file://%s" parse="text"/>' % canary_path
-    doc = body % ((TNS, payload, 'x') if slot == 'i' else (TNS, '5', payload))
+    # the slots: an integer, a text, a free-form dictionary (AnyDict) and a free-form XML fragment (AnyXml)
+    extra = {'d': '<tns:d><k>%s</k><n><m>%s</m></n></tns:d>' % (payload, payload), 'x': '<tns:x><k>%s</k></tns:x>' % payload}.get(slot, '')
+    doc = body % ((TNS, payload, 'x', '') if slot == 'i' else (TNS, '5', payload if slot == 'u' else 'x', extra))
     if family == 'xml':
         return (dtd + doc).encode()
     ns = SOAP11_NS if family == 'soap11' else SOAP12_NS
@@ -256,7 +268,7 @@ def _attack_doc(kind, family, canary_path, slot):
 
 def _mk_audit(family):
     @obligation('C17.audit.%s' % family, targets=['spyne.server.wsgi:WsgiApplication.handle_rpc'],
-                bounded="canary corpus of 8 attack documents x 3 validator settings x {integer, text} slots x {with, without charset} x {plain, root part of a "
+                bounded="canary corpus of 8 attack documents x 3 validator settings x {integer, text, AnyDict, AnyXml} slots x {with, without charset} x {plain, root part of a "
                         "multipart/related request} against the "
                         "installed lxml (audit of the assumed external contract, not a proof)",
                 desc="with default settings, external/parameter/internal entities, external DTDs and XInclude never bring "
@@ -268,7 +280,7 @@ def _mk_audit(family):
         from spyne.server.wsgi import WsgiApplication
         from .pipeline import protocols
         kind = c.choose(ATTACKS, 'attack')
-        slot = c.choose(['i', 'u'], 'slot')
+        slot = c.choose(['i', 'u', 'd', 'x'], 'slot')
         charset = c.choose([False, True], 'content_type_charset')
         multipart = family != 'xml' and c.choose([False, True], 'as_root_part_of_multipart_related')
         d = tempfile.mkdtemp(prefix='pyvc-canary-')
@@ -278,15 +290,21 @@ def _mk_audit(family):
             if kind == 'external_dtd_attribute_default':
                 f.write('<!ATTLIST tns:m canary CDATA "%s">\n<!ATTLIST tns:u canary CDATA "%s">\n' % (token, token))
             else:
-                f.write('77' if slot == 'i' else token)
+                f.write('4242007742' if slot == 'i' else token)
         got = []
 
-        def m(ctx, i, u):
-            got.append((i, u))
+        def show(v):
+            if isinstance(v, etree._Element):
+                return etree.tostring(v).decode('utf8', 'replace')
+            return v
+
+        def m(ctx, i, u, d, x):
+            got.append((i, u, d, show(x)))
             return u
         m._pyvc_native = True
         try:
-            Svc = type(ServiceBase)('Svc', (ServiceBase,), {'m': rpc(Integer, Unicode, _returns=Unicode)(m)})
+            from spyne.model.primitive import AnyDict, AnyXml
+            Svc = type(ServiceBase)('Svc', (ServiceBase,), {'m': rpc(Integer, Unicode, AnyDict, AnyXml, _returns=Unicode)(m)})
             inp, outp = protocols(family, c.choose([None, 'soft', 'lxml'], 'validator'))
             wsgi = WsgiApplication(Application([Svc], TNS, name='VApp', in_protocol=inp, out_protocol=outp))
             body = _attack_doc(kind, family, canary, slot)
@@ -316,7 +334,7 @@ def _mk_audit(family):
             os.unlink(canary)
             os.rmdir(d)
         c.check('callable_returns', out.returned, detail=repr(out))
-        leak = [token, 'INTERNAL-ENTITY-TEXT-77', '77']
+        leak = [token, 'INTERNAL-ENTITY-TEXT-77', '4242007742']
         c.check('nothing_in_response', all(x.encode() not in resp for x in leak), detail=resp[:300])
         c.check('nothing_in_user_args', all(x not in repr(a) for a in got for x in leak), detail=got)
         if kind == 'deep_nesting':
@@ -328,3 +346,78 @@ def _mk_audit(family):
 
 for _f in ('xml', 'soap11', 'soap12'):
     _mk_audit(_f)
+
+
+SCHEMA_ATTACKS = ['external_dtd_attribute_default', 'external_dtd_entity', 'external_general_entity', 'external_parameter_entity']
+
+
+@obligation('C17.schema_reader', targets=['spyne.util.xml:parse_schema_string', 'spyne.util.xml:parse_schema_file',
+                                          'spyne.interface.xml_schema.parser:XmlSchemaParser.parse_schema'],
+            bounded="canary corpus of 4 schema documents (external DTD subset declaring attribute defaults / entities, "
+                    "external general entity, external parameter entity) x {parse_schema_string, parse_schema_file} against "
+                    "the installed lxml (audit, not a proof)",
+            desc="the schema reader (the other XML parser of the package, spyne/interface/xml_schema/parser.py) does not "
+                 "load an external DTD subset or external entities either: nothing of the canary file reaches the parsed "
+                 "document or the classes generated from it")
+def schema_reader(c):
+    from spyne.util.xml import parse_schema_string, parse_schema_file
+    kind = c.choose(SCHEMA_ATTACKS, 'attack')
+    how = c.choose(['string', 'file'], 'entry_point')
+    d = tempfile.mkdtemp(prefix='pyvc-canary-')
+    canary = os.path.join(d, 'canary.dtd')
+    token = 'CANARY-4242-TOKEN'
+    with open(canary, 'w') as f:
+        if kind == 'external_dtd_attribute_default':
+            f.write('<!ATTLIST xs:element default CDATA "%s">\n' % token)
+        elif kind in ('external_dtd_entity', 'external_parameter_entity'):
+            f.write('<!ENTITY leak "%s">\n' % token)
+        else:
+            f.write(token)
+    use = ''
+    if kind in ('external_dtd_attribute_default', 'external_dtd_entity'):
+        dtd = '<!DOCTYPE xs:schema SYSTEM "file://%s">' % canary
+        use = '&leak;' if kind == 'external_dtd_entity' else ''
+    elif kind == 'external_general_entity':
+        dtd = '<!DOCTYPE xs:schema [<!ENTITY leak SYSTEM "file://%s">]>' % canary
+        use = '&leak;'
+    else:
+        dtd = '<!DOCTYPE xs:schema [<!ENTITY %% p SYSTEM "file://%s"> %%p;]>' % canary
+        use = '&leak;'
+    doc = ('%s<xs:schema xmlns:xs="http://www.w3.org/2001/XMLSchema" xmlns:tns="urn:s" targetNamespace="urn:s">'
+           '<xs:complexType name="T"><xs:annotation><xs:documentation>doc %s</xs:documentation></xs:annotation><xs:sequence>'
+           '<xs:element name="a" type="xs:string" minOccurs="0"/></xs:sequence></xs:complexType>'
+           '<xs:element name="T" type="tns:T"/></xs:schema>' % (dtd, use)).encode()
+    try:
+        if how == 'string':
+            out = c.run(parse_schema_string, doc)
+        else:
+            path = os.path.join(d, 'schema.xsd')
+            with open(path, 'wb') as f:
+                f.write(doc)
+            try:
+                out = c.run(parse_schema_file, path)
+            finally:
+                os.unlink(path)
+    finally:
+        os.unlink(canary)
+        os.rmdir(d)
+    # refusing the document is fine; reading the canary is not: the classes generated with the DOCTYPE present are the ones
+    # generated without it, and the token is nowhere in them
+    def snap(schemas):
+        out_ = {}
+        for ns, sch in sorted(schemas.items()):
+            for tn, T in sorted(getattr(sch, 'types', {}).items()):
+                out_[(ns, tn)] = [repr(getattr(T, '__doc__', None))] + [
+                    (k, v.get_type_name(), repr(v.Attributes.default), v.Attributes.min_occurs, repr(getattr(v, '__doc__', None)))
+                    for k, v in getattr(T, '_type_info', {}).items()]
+        return out_
+    ref = parse_schema_string(doc[len(dtd):].replace(b'&leak;', b''))
+    seen = []
+    if out.returned:
+        got_ = snap(out.value)
+        seen.append(repr(got_))
+        c.check('classes_are_those_of_the_document_without_the_doctype', got_ == snap(ref) and len(got_) > 0,
+                detail=(got_, snap(ref)))
+    else:
+        seen.append(repr(out))
+    c.check('nothing_of_the_canary_file_in_the_generated_classes', all(token not in s_ for s_ in seen), detail=[s_ for s_ in seen if token in s_][:3])
